@@ -3,7 +3,7 @@ import json
 import os
 import vlib
 
-PROPS = ['Rangers.Props.C04', 'Rangers.Props.C04B', 'Rangers.Props.C04C']
+PROPS = ['Rangers.Props.C04', 'Rangers.Props.C04B', 'Rangers.Props.C04C', 'Rangers.Props.C04D']
 DRIVERS = ['C04']
 BOUND_TOKEN = 'b0' + '5e' * 19      # a non-zero bound token contract for the second configuration
 
